@@ -114,6 +114,9 @@ def gen_cases(tier, seed):
                         s['trigger'] = 'event'
                         s['plan'] = {'cancel': {'at': k, 'phase': phase, 'how': how, 'from': 'main'}}
                     cases.append(with_subs(s, rng, size_ok=False))
+    # a BaseException that is neither an Exception nor a KeyboardInterrupt (sys.exit() in a callback, a framework's cancellation class)
+    # raised inside the submission step: on_done still runs exactly once
+    cases += c03.base_in_submission_cases(rng, quick)
     # a size supplied in on_queued (including 0, the size of an empty object) suppresses the size-discovery request
     for kind, extra in gen.KINDS:
         if kind not in ('download', 'copy'):
